@@ -270,6 +270,8 @@ def res_equal(impl, want, req=None, cls=None):
         return True
     if req and req.startswith('entries ') and _unsorted_follow_error(req, impl, want):
         return True      # not judged: order-dependent (see cmp_line)
+    if req and req.startswith('entries ') and cls == 'follow_name_tie' and impl.startswith('ok t:') and want.startswith('ok t:') and (impl[5:].split(',')[-1].startswith('E') or want[5:].split(',')[-1].startswith('E')):
+        return True
     if req and req.startswith('entries ') and impl.startswith('ok t:') and want.startswith('ok t:'):
         a = req.split(' ')
         if len(a) > 5 and a[5] == '1':
@@ -780,6 +782,8 @@ def cmp_line(req, impl, model, cls=None):
         return 'dead'     # a copy of a tree with several entries that fails: WHICH entry fails first (and with which kind) depends on the set order
     if op in UNORDERED_OPS and 'LinkLooping' in io and 'LinkLooping' in mo:
         return 'dead'
+    if op == 'entries' and cls == 'follow_name_tie' and io.startswith('ok t:') and mo.startswith('ok t:') and (io[5:].split(',')[-1].startswith('E') or mo[5:].split(',')[-1].startswith('E')):
+        return 'dead'     # a name tie among followed siblings decides what is yielded before the error
     if op == 'entries' and _unsorted_follow_error(req, io, mo):
         return 'dead'     # unsorted traversal that follows links and ends in an error: what was yielded before it, and which error comes first, depends on the set order
     a = req.split(' ')
